@@ -10,6 +10,7 @@ import (
 	"fmt"
 	"io"
 	"net"
+	"sync"
 
 	hclog "github.com/hashicorp/go-hclog"
 	"github.com/hashicorp/go-plugin/internal/grpcmux"
@@ -60,6 +61,10 @@ type GRPCServer struct {
 	server      *grpc.Server
 	broker      *GRPCBroker
 	stdioServer *grpcStdioServer
+
+	// stopLock guards broker in Stop and GracefulStop, which can be called
+	// concurrently (the controller's Shutdown request, the owner of the server).
+	stopLock sync.Mutex
 
 	logger hclog.Logger
 
@@ -118,6 +123,8 @@ func (s *GRPCServer) Init() error {
 func (s *GRPCServer) Stop() {
 	s.server.Stop()
 
+	s.stopLock.Lock()
+	defer s.stopLock.Unlock()
 	if s.broker != nil {
 		s.broker.Close()
 		s.broker = nil
@@ -129,6 +136,8 @@ func (s *GRPCServer) Stop() {
 func (s *GRPCServer) GracefulStop() {
 	s.server.GracefulStop()
 
+	s.stopLock.Lock()
+	defer s.stopLock.Unlock()
 	if s.broker != nil {
 		s.broker.Close()
 		s.broker = nil
